@@ -1,94 +1,339 @@
 package main
 
 import (
-	"context"
+	"bytes"
 	"fmt"
-	"io"
-	"os"
-	"path/filepath"
 	"strings"
-	"time"
-
-	"github.com/google/gce-tcb-verifier/cmd"
-	"github.com/google/gce-tcb-verifier/endorse"
-	"github.com/google/gce-tcb-verifier/keys"
-	vpb "github.com/google/gce-tcb-verifier/proto/scrtmversion"
-	"github.com/google/gce-tcb-verifier/storage/local"
-	"google.golang.org/protobuf/proto"
 )
 
-// c15RunCLI runs the request through the real command line: cmd.MakeApp(...) "endorse --uefi ... --dry_run ..."
-// with the recording doubles installed by the application components. This covers the flag wiring of
-// cmd/endorse.go and cmd/flags.go (--dry_run, --measurement_only, --snapshot_dir, --candidate_name, --overwrite,
-// technology and VMSA flags, the S_CRTM side file that supplies the SVN).
-func c15RunCLI(cs c15Case, v0 *c14VCS, rec c15Rec, signed *[]string) error {
-	r := cs.r
-	signer, ca := memKeys()
-	fwPath := filepath.Join(cs.cliDir, "fw.fd")
-	if err := os.WriteFile(fwPath, r.im.fw, 0644); err != nil {
-		return err
+// Stream c15cli: the shipped `endorse` command (cmd.MakeApp … endorse --flags) over the recording doubles, every
+// command line also through the Lean model of the command (Model/EndorseCli.lean, protocol `cli op=run`).
+//
+//	part 1  exhaustive: --dry_run x --measurement_only x --overwrite x --tdx_include_early_accept x --snapshot_dir x
+//	        --candidate_name x technology subset {none, SNP, TDX, both} x S_CRTM side file {absent, <stem>_scrtm_ver.pb,
+//	        <image>.scrtm.pb, both (different versions), corrupt}; the valued flags (VMSA count, product, ids, shapes,
+//	        clspec, commit, retries, timestamp, out dir, image, existing endorsement / manifest) are drawn per case
+//	part 2  every way a command line is refused (and the near-misses that are accepted), x technology subsets x
+//	        {--dry_run, --measurement_only}: commit length / hex, product names, ids, numeric ranges, timestamps,
+//	        --uefi suffix / absence / unreadable image, corrupt side files, SVSM files, failing application components
+//	part 3  paths and side-file contents: directories, a directory name containing ".fd", empty / unknown-field /
+//	        large / negative versions, first spelling empty while the second is present
+func init() {
+	register("c15cli", "real `endorse` command (cobra wiring of cmd/endorse.go, cmd/flags.go, cmd/compose.go) over recording doubles, every command line "+
+		"compared with the Lean model of the command (phase of refusal, the endorse.Context handed to the pipeline field by field, result, effect log): "+
+		"exhaustive boolean flags x technology subsets x side-file states with drawn valued flags; all refusal classes and their accepted near-misses; "+
+		"path and side-file content variants. Direct oracle: effect freedom of --dry_run / --measurement_only (also together), refusal before any effect, the request "+
+		"names what the command line names (side-file SVN in every endorsed technology), document oracle of C06 on every written endorsement. "+
+		"Non-trivial: the command line is refused, or --dry_run / --measurement_only is set and the pipeline is entered.", runC15CLI)
+}
+
+const (
+	cliT1    = "2023-10-09T09:12:00Z"
+	cliT2    = "2024-02-29T23:59:59.5+02:00"
+	cliIID   = "87654321-dead-beef-c0de-123456789abc"
+	cliFAM   = "0f1e2d3c-4b5a-6978-8796-a5b4c3d2e1f0"
+	cliHex20 = "cdcdcdcdcdcdcdcdcdcdcdcdcdcdcdcdcdcdcdcd"
+)
+
+func cliImages(tagBase byte) []*c06Image {
+	mk := func(name string, size int, tag byte, nTemp int) *c06Image {
+		return &c06Image{name: name, fw: c06Firmware(size, tag, true, true, nTemp), ld: map[string][]byte{}, mr: map[string][]byte{}}
 	}
-	side := filepath.Join(cs.cliDir, "fw_scrtm_ver.pb")
-	os.Remove(side)
-	os.Remove(filepath.Join(cs.cliDir, "fw.fd.scrtm.pb"))
-	if cs.sideAlt {
-		side = filepath.Join(cs.cliDir, "fw.fd.scrtm.pb")
+	return []*c06Image{mk("both-8k", 0x2000, tagBase, 0), mk("both-12k", 0x3000, tagBase+2, 2)}
+}
+
+// cliSideState fills the side files of state st for image path uefi.
+func cliSideState(cs *cliCase, st string, alt int) {
+	p1, p2 := cliSidePaths(cs.uefi)
+	if cs.files == nil {
+		cs.files = map[string][]byte{}
 	}
-	if r.svn != 0 {
-		b, _ := proto.Marshal(&vpb.SCRTMVersion{Version: vpb.FirmwareVersion_Version(r.svn)})
-		if err := os.WriteFile(side, b, 0644); err != nil {
-			return err
+	switch st {
+	case "absent":
+	case "stem":
+		cs.files[p1] = cliSideFile(5)
+	case "image":
+		cs.files[p2] = cliSideFile(6)
+	case "both":
+		cs.files[p1] = cliSideFile(7)
+		cs.files[p2] = cliSideFile(9)
+	case "corrupt":
+		if alt%2 == 0 {
+			cs.files[p1] = []byte{0x08} // field 1, varint, value missing
+		} else {
+			cs.files[p2] = []byte{0x0a, 0x05, 0x01} // length-delimited field running past the end
 		}
 	}
-	app := &cmd.AppComponents{
-		Endorse: cmd.EndorseSetter(func(ec *endorse.Context) { ec.VCS = v0 }),
-		Global: &cmd.PartialComponent{FInitContext: func(ctx context.Context) (context.Context, error) {
-			return keys.NewContext(ctx, &keys.Context{CA: &c15CA{ca, rec}, Signer: &c15Signer{signer, rec, signed}, Random: &Rng{s: 3}}), nil
-		}},
-		Bootstrap:       &cmd.PartialComponent{},
-		Rotate:          &cmd.PartialComponent{},
-		Wipeout:         &cmd.PartialComponent{},
-		SignatureRandom: &Rng{s: 4},
-		Storage:         &local.StorageClient{},
+}
+
+func cliOne(c *Ctx, prefix, dir string, cs cliCase) (cliResult, bool) {
+	res, line := cliRun(cs, dir)
+	wrote := cliOracle(c, prefix, cs, res, line)
+	nontrivial := res.phase != "run" || cs.dry || cs.mo
+	if prefix == "c06/cli" {
+		nontrivial = wrote || res.phase != "run"
 	}
-	root := cmd.MakeApp(context.Background(), app)
-	root.SetOut(io.Discard)
-	root.SetErr(io.Discard)
-	args := []string{"endorse", "--quiet", "--uefi", fwPath, "--out_dir", "out", "--clspec", fmt.Sprint(r.cl),
-		"--commit_retries", fmt.Sprint(cs.budget), "--timestamp", r.ts.Format(time.RFC3339)}
-	if r.snp {
-		args = append(args, "--add_snp", "--snp_launch_vmsas", fmt.Sprint(r.vm), "--snp_product", []string{"", "Milan", "Genoa", "Turin"}[r.prod])
-		if r.iid != "" {
-			args = append(args, "--snp_image_id", r.iid)
+	c.Case(line, res.impl(), nontrivial)
+	tech := "none"
+	switch {
+	case cs.addSnp && cs.addTdx:
+		tech = "both"
+	case cs.addSnp:
+		tech = "snp"
+	case cs.addTdx:
+		tech = "tdx"
+	}
+	k := res.phase
+	if res.phase == "prerun" || res.phase == "init" {
+		k += ":" + res.cls
+	}
+	c.Count(fmt.Sprintf("%s/%s/mo%s-dry%s/%s-%s", cs.tag, tech, b2s(cs.mo), b2s(cs.dry), k, res.res))
+	return res, wrote
+}
+
+var cliTechs = [][2]bool{{false, false}, {true, false}, {false, true}, {true, true}}
+
+func runC15CLI(c *Ctx) {
+	images := cliImages(41)
+	pick := func(n int) int { return c.Rng.Intn(n) }
+	cliWithDir(func(dir string) {
+		// ---- part 1: exhaustive booleans x technology subsets x side-file states ----
+		alt := 0
+		for _, tech := range cliTechs {
+			for _, st := range []string{"absent", "stem", "image", "both", "corrupt"} {
+				for mask := 0; mask < 64; mask++ {
+					cs := cliCase{im: images[pick(2)], uefi: "fw.fd", addSnp: tech[0], addTdx: tech[1], outDir: "out", tag: "flags/" + st,
+						dry: mask&1 != 0, mo: mask&2 != 0, ow: mask&4 != 0, early: mask&8 != 0, rndSeed: uint64(5 + pick(3))}
+					if mask&16 != 0 {
+						cs.snap = "snap"
+					}
+					if mask&32 != 0 {
+						cs.cand = "rc3"
+					}
+					alt++
+					cliSideState(&cs, st, alt)
+					// valued flags; the SNP / TDX ones are sometimes given although the technology is not added
+					if tech[0] || pick(3) == 0 {
+						cs.vm = []string{"", "1", "2", "0"}[pick(4)]
+						cs.prod = [][]string{nil, {"Genoa"}, {"Milan"}, {"", "Genoa"}, {"Genoa", "Milan"}}[pick(5)]
+						cs.iid = []string{"", cliIID}[pick(2)]
+						cs.fam = []string{"", cliFAM}[pick(2)]
+					}
+					if tech[1] || pick(3) == 0 {
+						cs.shapes = [][]string{nil, {"c3-standard-4"}, {"c3-standard-8", "c3-standard-4"}}[pick(3)]
+					} else {
+						cs.early = false
+					}
+					cs.ts = [][]string{{cliT1}, nil, {cliT2}, {"", cliT1}}[pick(4)]
+					if k := pick(3); k == 1 {
+						h := cliHex20
+						cs.commit = &h
+					} else if k == 2 {
+						h := ""
+						cs.commit = &h
+					}
+					cs.cl = []string{"", "77", "18446744073709551615"}[pick(3)]
+					cs.retries = []string{"", "2", "0", "-1"}[pick(4)]
+					cs.exists = pick(4) == 0
+					cs.mread = []byte{'N', 'M'}[pick(2)]
+					cliOne(c, "c15/cli", dir, cs)
+				}
+			}
 		}
-		if r.fam != "" {
-			args = append(args, "--snp_family_id", r.fam)
+		// ---- part 2: refusals and their accepted near-misses ----
+		str := func(s string) *string { return &s }
+		type mut struct {
+			name string
+			f    func(*cliCase)
 		}
-	}
-	if r.tdx {
-		args = append(args, "--add_tdx")
-		if len(r.shapes) > 0 {
-			args = append(args, "--tdx_machine_shapes", strings.Join(r.shapes, ","))
+		muts := []mut{
+			{"control", func(*cliCase) {}},
+			{"commit-19", func(cs *cliCase) { cs.commit = str(strings.Repeat("ab", 19)) }},
+			{"commit-21", func(cs *cliCase) { cs.commit = str(strings.Repeat("ab", 21)) }},
+			{"commit-1", func(cs *cliCase) { cs.commit = str("ab") }},
+			{"commit-20-upper", func(cs *cliCase) { cs.commit = str(strings.Repeat("AB", 20)) }},
+			{"commit-odd", func(cs *cliCase) { cs.commit = str("abc") }},
+			{"commit-nonhex", func(cs *cliCase) { cs.commit = str(strings.Repeat("zz", 20)) }},
+			{"product-Rome", func(cs *cliCase) { cs.prod = []string{"Rome"} }},
+			{"product-lower", func(cs *cliCase) { cs.prod = []string{"milan"} }},
+			{"product-stepping", func(cs *cliCase) { cs.prod = []string{"Milan-B1"} }},
+			{"product-bad-then-good", func(cs *cliCase) { cs.prod = []string{"Rome", "Milan"} }},
+			{"product-Turin", func(cs *cliCase) { cs.prod = []string{"Turin"} }},
+			{"product-empty", func(cs *cliCase) { cs.prod = []string{""} }},
+			{"family-bad", func(cs *cliCase) { cs.fam = "not_a_guid" }},
+			{"image-id-bad", func(cs *cliCase) { cs.iid = "87654321-dead-beef-c0de-123456789ab" }},
+			{"image-id-urn", func(cs *cliCase) { cs.iid = "urn.uuid." + cliIID }},
+			{"image-id-braces", func(cs *cliCase) { cs.iid = "{" + cliIID + "}" }},
+			{"family-nodash", func(cs *cliCase) { cs.fam = strings.ReplaceAll(cliFAM, "-", "") }},
+			{"vm-2^32", func(cs *cliCase) { cs.vm = "4294967296" }},
+			{"vm-65", func(cs *cliCase) { cs.vm = "65" }},
+			{"vm-3", func(cs *cliCase) { cs.vm = "3" }},
+			{"clspec-2^64", func(cs *cliCase) { cs.cl = "18446744073709551616" }},
+			{"retries-2^63", func(cs *cliCase) { cs.retries = "9223372036854775808" }},
+			{"retries-min", func(cs *cliCase) { cs.retries = "-9223372036854775808" }},
+			{"timestamp-bad", func(cs *cliCase) { cs.ts = []string{"Tomorrow"} }},
+			{"timestamp-twice", func(cs *cliCase) { cs.ts = []string{cliT1, cliT2} }},
+			{"timestamp-empty-then-set", func(cs *cliCase) { cs.ts = []string{"", "", cliT2} }},
+			{"timestamp-absent", func(cs *cliCase) { cs.ts = nil }},
+			{"timestamp-zero", func(cs *cliCase) { cs.ts = []string{"0001-01-01T00:00:00Z"} }},
+			{"timestamp-zero-then-set", func(cs *cliCase) { cs.ts = []string{"0001-01-01T00:00:00Z", cliT1} }},
+			{"timestamp-pre-1970", func(cs *cliCase) { cs.ts = []string{"1969-12-31T23:59:59.75Z"} }},
+			{"uefi-absent", func(cs *cliCase) { cs.uefi = ""; cs.files = nil }},
+			{"uefi-suffix-bin", func(cs *cliCase) { cs.uefi = "fw.bin"; cs.files = nil }},
+			{"uefi-suffix-fd-bak", func(cs *cliCase) { cs.uefi = "fw.fd.bak"; cs.files = nil }},
+			{"uefi-suffix-FD", func(cs *cliCase) { cs.uefi = "fw.FD"; cs.files = nil }},
+			{"image-missing", func(cs *cliCase) { cs.noImage = true }},
+			{"side-corrupt-stem", func(cs *cliCase) { cs.files = map[string][]byte{"fw_scrtm_ver.pb": {0x08, 0x80}} }},
+			{"side-corrupt-image", func(cs *cliCase) { cs.files = map[string][]byte{"fw.fd.scrtm.pb": {0x0f}} }},
+			{"side-corrupt-shadowed", func(cs *cliCase) {
+				cs.files = map[string][]byte{"fw_scrtm_ver.pb": cliSideFile(4), "fw.fd.scrtm.pb": {0x08}}
+			}},
+			{"side-fieldnumber-0", func(cs *cliCase) { cs.files = map[string][]byte{"fw_scrtm_ver.pb": {0x00, 0x00}} }},
+			{"side-endgroup", func(cs *cliCase) { cs.files = map[string][]byte{"fw_scrtm_ver.pb": {0x0c}} }},
+			{"svsm-missing", func(cs *cliCase) { cs.svsm = "svsm.igvm" }},
+			{"svsm-present", func(cs *cliCase) { cs.svsm = "svsm.igvm"; cs.files["svsm.igvm"] = []byte("svsm image") }},
+			{"svsm-meas-good", func(cs *cliCase) {
+				cs.svsmM = "svsm.txt"
+				cs.files["svsm.txt"] = []byte(" \t" + strings.Repeat("0a", 48) + "\r\n")
+			}},
+			{"svsm-meas-missing", func(cs *cliCase) { cs.svsmM = "svsm.txt" }},
+			{"svsm-meas-nonhex", func(cs *cliCase) { cs.svsmM = "svsm.txt"; cs.files["svsm.txt"] = []byte(strings.Repeat("0g", 48)) }},
+			{"svsm-meas-47", func(cs *cliCase) {
+				cs.svsmM = "svsm.txt"
+				cs.files["svsm.txt"] = []byte(strings.Repeat("0a", 47) + "\n")
+			}},
+			{"svsm-meas-49", func(cs *cliCase) { cs.svsmM = "svsm.txt"; cs.files["svsm.txt"] = []byte(strings.Repeat("0A", 49)) }},
+			{"svsm-meas-inner-space", func(cs *cliCase) {
+				cs.svsmM = "svsm.txt"
+				cs.files["svsm.txt"] = []byte(strings.Repeat("0a", 24) + " " + strings.Repeat("0a", 24))
+			}},
+			{"global-prerun-fails", func(cs *cliCase) { cs.gpreFail = true }},
+			{"app-prerun-fails", func(cs *cliCase) { cs.apreFail = true }},
+			{"global-init-fails", func(cs *cliCase) { cs.ginitFail = true }},
+			{"app-init-fails", func(cs *cliCase) { cs.ainitFail = true }},
+			{"app-prerun-fails+bad-commit", func(cs *cliCase) { cs.apreFail = true; cs.commit = str("ab") }},
+			{"global-init-fails+image-missing", func(cs *cliCase) { cs.ginitFail = true; cs.noImage = true }},
+			{"bad-commit+corrupt-side+bad-family", func(cs *cliCase) {
+				cs.commit = str("ab")
+				cs.fam = "x"
+				cs.files = map[string][]byte{"fw_scrtm_ver.pb": {0x08}}
+			}},
+			{"release-branch", func(cs *cliCase) { cs.branch = "rel_branch_7" }},
+			{"no-out-dir", func(cs *cliCase) { cs.outDir = "" }},
 		}
-		if r.early {
-			args = append(args, "--tdx_include_early_accept")
+		modes := [][2]bool{{false, false}, {true, false}, {false, true}, {true, true}}
+		for _, m := range muts {
+			for _, tech := range cliTechs {
+				for _, md := range modes {
+					if c.Quick() && md[0] != md[1] && (m.name == "control" || strings.HasPrefix(m.name, "svsm") || strings.HasPrefix(m.name, "side-")) {
+						continue
+					}
+					cs := cliCase{im: images[0], uefi: "fw.fd", addSnp: tech[0], addTdx: tech[1], outDir: "out", tag: "refuse/" + m.name,
+						dry: md[0], mo: md[1], ow: true, rndSeed: 5, ts: []string{cliT1}, vm: "2", iid: cliIID, cl: "77", retries: "2", mread: 'M',
+						files: map[string][]byte{"fw_scrtm_ver.pb": cliSideFile(3)}}
+					if tech[1] {
+						cs.shapes = []string{"c3-standard-4"}
+					}
+					m.f(&cs)
+					cliOne(c, "c15/cli", dir, cs)
+				}
+			}
 		}
-	}
-	if cs.dry {
-		args = append(args, "--dry_run")
-	}
-	if cs.mo {
-		args = append(args, "--measurement_only")
-	}
-	if cs.snap {
-		args = append(args, "--snapshot_dir", "snap")
-	}
-	if cs.cand != "" {
-		args = append(args, "--candidate_name", cs.cand)
-	}
-	if cs.ow {
-		args = append(args, "--overwrite")
-	}
-	root.SetArgs(args)
-	return root.Execute()
+		// ---- part 3: paths and side-file contents ----
+		enc := func(fields ...[]byte) []byte { return bytes.Join(fields, nil) }
+		contents := []struct {
+			name string
+			b    []byte
+		}{
+			{"v2", cliSideFile(2)},
+			{"v-max-int32", cliSideFile(0x7fffffff)},
+			{"v-2^31", enc([]byte{0x08, 0x80, 0x80, 0x80, 0x80, 0x08})},                                    // varint 2^31: int32 wraps negative, uint32 is 2^31
+			{"v-2^32+5", enc([]byte{0x08, 0x85, 0x80, 0x80, 0x80, 0x10})},                                  // truncated to 5
+			{"v-minus-1", enc([]byte{0x08, 0xff, 0xff, 0xff, 0xff, 0xff, 0xff, 0xff, 0xff, 0xff, 0x01})},   // enum -1: uint32 0xffffffff
+			{"v-overlong", enc([]byte{0x08, 0x85, 0x80, 0x00})},                                            // non-minimal varint 5
+			{"v-twice", enc([]byte{0x08, 0x03}, []byte{0x08, 0x04})},                                       // last wins
+			{"unknown-field", enc([]byte{0x10, 0x07}, []byte{0x08, 0x06}, []byte{0x1a, 0x02, 0x41, 0x42})}, // fields 2 and 3 unknown
+			{"wrong-wiretype", enc([]byte{0x0a, 0x01, 0x05})},                                              // field 1 length-delimited: unknown, version 0
+			{"empty", []byte{}},
+			{"zero", []byte{0x08, 0x00}},
+		}
+		paths := []string{"fw.fd", "sub/dir/fw.fd", "./fw.fd", "rel.fd.d/fw.fd", "fw.fd.fd", ".fd", "d/.fd"}
+		for _, up := range paths {
+			for ci, ct := range contents {
+				if c.Quick() && up != "fw.fd" && up != "rel.fd.d/fw.fd" && ci > 2 {
+					continue
+				}
+				for _, which := range []string{"stem", "image", "stem-empty+image"} {
+					for _, tech := range cliTechs[1:] {
+						cs := cliCase{im: images[1], uefi: up, addSnp: tech[0], addTdx: tech[1], outDir: "out", tag: "paths/" + which,
+							ow: true, rndSeed: 6, ts: []string{cliT2}, vm: "1", mread: 'N', files: map[string][]byte{}, snap: "snap"}
+						p1, p2 := cliSidePaths(up)
+						switch which {
+						case "stem":
+							cs.files[p1] = ct.b
+						case "image":
+							cs.files[p2] = ct.b
+						default:
+							cs.files[p1] = []byte{}
+							cs.files[p2] = ct.b
+						}
+						cliOne(c, "c15/cli", dir, cs)
+					}
+				}
+			}
+		}
+		// ---- part 4: random mixtures of everything above ----
+		nr := c.N(200, 6000)
+		// pools: well-formed values first (the first `valid` entries); each field is drawn from the well-formed ones
+		// nine times out of ten, so that most command lines reach the pipeline and about a third are refused somewhere
+		pw := func(valid, all int) int {
+			if pick(10) != 0 {
+				return pick(valid)
+			}
+			return pick(all)
+		}
+		tsPool := [][]string{{cliT1}, nil, {cliT2}, {"", cliT1}, {cliT1, ""}, {cliT1, cliT2}, {"Tomorrow"}, {"0001-01-01T00:00:00Z", cliT2}}
+		prodPool := [][]string{nil, {"Genoa"}, {"Milan"}, {"", "Genoa"}, {"Genoa", "Milan"}, {"Turin"}, {"Rome"}, {"Milan", "genoa"}}
+		commitPool := []*string{nil, str(cliHex20), str(""), str(strings.ToUpper(cliHex20)), str("abcd"), str(cliHex20 + "00"), str("xyz")}
+		idPool := []string{"", cliIID, cliFAM, "{" + cliIID + "}", "nope", cliIID[:35]}
+		shapePool := [][]string{nil, {"c3-standard-4"}, {"c3-standard-8", "c3-standard-4"}, {"c3-standard-176"}, {"c3-standard-4", "c3-standard-4"}, {"n2d-standard-2"}}
+		uefiPool := []string{"fw.fd", "sub/fw.fd", "x.fd.y/z.fd", "", "fw.rom"}
+		vmPool := []string{"", "0", "1", "2", "5", "4294967296"}
+		clPool := []string{"", "1", "18446744073709551615", "18446744073709551616"}
+		for i := 0; i < nr; i++ {
+			tech := cliTechs[1+pick(3)]
+			if pick(10) == 0 {
+				tech = cliTechs[0]
+			}
+			cs := cliCase{im: images[pick(2)], uefi: uefiPool[pw(3, len(uefiPool))], addSnp: tech[0], addTdx: tech[1], tag: "random",
+				outDir: []string{"out", "out", ""}[pick(3)], dry: pick(2) == 0, mo: pick(3) == 0, ow: pick(2) == 0, early: pick(2) == 0,
+				rndSeed: uint64(1 + pick(9)), files: map[string][]byte{}, ts: tsPool[pw(4, len(tsPool))], prod: prodPool[pw(5, len(prodPool))],
+				commit: commitPool[pw(4, len(commitPool))], iid: idPool[pw(4, len(idPool))], fam: idPool[pw(4, len(idPool))],
+				shapes: shapePool[pw(5, len(shapePool))], vm: vmPool[pw(5, len(vmPool))],
+				cl: clPool[pw(3, len(clPool))], retries: []string{"", "0", "3", "-2"}[pick(4)],
+				snap: []string{"", "", "snap"}[pick(3)], cand: []string{"", "rc0", "rc9"}[pick(3)], exists: pick(3) == 0, mread: []byte{'N', 'M'}[pick(2)],
+				noImage: pick(40) == 0, gpreFail: pick(60) == 0, apreFail: pick(60) == 0, ginitFail: pick(60) == 0, ainitFail: pick(60) == 0}
+			if cs.uefi != "" {
+				p1, p2 := cliSidePaths(cs.uefi)
+				sidePool := [][]byte{nil, cliSideFile(uint32(1 + pick(300))), {}, {0x08, 0x80, 0x80, 0x80, 0x80, 0x08}, {0x10, 0x01}, {0x08}}
+				if b := sidePool[pw(5, len(sidePool))]; b != nil {
+					cs.files[p1] = b
+				}
+				if b := sidePool[pw(5, len(sidePool))]; b != nil {
+					cs.files[p2] = b
+				}
+			}
+			if pick(6) == 0 {
+				cs.svsmM = "m.txt"
+				cs.files["m.txt"] = [][]byte{[]byte(strings.Repeat("7e", 48)), []byte(strings.Repeat("7e", 48) + "\n"), []byte("7e7e"), []byte("not hex")}[pw(2, 4)]
+			}
+			if pick(8) == 0 {
+				cs.svsm = "s.igvm"
+				if pick(8) != 0 {
+					cs.files["s.igvm"] = []byte("svsm")
+				}
+			}
+			cliOne(c, "c15/cli", dir, cs)
+		}
+	})
 }
